@@ -154,7 +154,9 @@ func (w *world) configText(id, fault string) string {
 		interval = "0s"
 	}
 	fmt.Fprintf(&b, "# configuration %s\nroute:\n  receiver: %s-r0\n  group_by: [alertname]\n  group_wait: 100ms\n  group_interval: %s\n  repeat_interval: 4h\n", id, id, interval)
-	fmt.Fprintf(&b, "  routes:\n    - matchers: [ sev=\"x\" ]\n      receiver: %s\n", child)
+	// the sev="x" route names an interval declared under the deprecated top-level key mute_time_intervals; it holds in 1999 only,
+	// so the route is never muted: its alerts must be notified like any other
+	fmt.Fprintf(&b, "  routes:\n    - matchers: [ sev=\"x\" ]\n      receiver: %s\n      mute_time_intervals: [ long-ago ]\n", child)
 	// a route that is muted around the clock (op gmuted)
 	fmt.Fprintf(&b, "    - matchers: [ sev=\"m\" ]\n      receiver: %s-r0\n      mute_time_intervals: [ always ]\n", id)
 	if fault == "big" {
@@ -163,6 +165,7 @@ func (w *world) configText(id, fault string) string {
 			fmt.Fprintf(&b, "    - matchers: [ filler=\"v%d\", filler2=~\"w%d.*\" ]\n      receiver: %s-r0\n      group_by: [ alertname, filler, f%d ]\n", i, i, id, i)
 		}
 	}
+	b.WriteString("mute_time_intervals:\n  - name: long-ago\n    time_intervals:\n      - years: [ '1999' ]\n")
 	b.WriteString("time_intervals:\n  - name: always\n    time_intervals:\n      - times:\n          - start_time: '00:00'\n            end_time: '24:00'\n")
 	b.WriteString("inhibit_rules:\n  - source_matchers: [ role=\"src\" ]\n    target_matchers: [ role=\"tgt\" ]\n    equal: [ alertname ]\n")
 	b.WriteString("receivers:\n")
